@@ -89,21 +89,25 @@ def dom_mode(ctx):
         if not ty or "GenericPlan" not in ty:
             continue
         k += 1
-        if val[0] == "var" and val[1] == "start_plan":
+        # classify the pushed plan by where its value comes from, not by what the local is called
+        srcs = ob.origins(val)
+        fm = [x for x in srcs if x[0] == "call" and T.canon(x[1]).endswith("GenericPlan::for_mode")]
+        drained = [x for x in srcs if any(isinstance(y, tuple) and y and y[0] == "call" and T.canon(y[1]).endswith("::next") for y in M.walk(x))
+                   and any(isinstance(y, tuple) and y and y[0] == "call" and "drain" in T.canon(y[1]).lower() for y in M.walk(x))]
+        if srcs and len(fm) == len(srcs):
             ok = False
             for g in gs:
                 if g[1][0] in ("arg", "var") and g[1][1] == "mode" and g[2][0] in ("arg", "var") and g[2][1] == "enabled_modes" and g[3]:
                     ok = ok or ob.dominated_by_edge(b, g[3])
             obs.append(Ob(r, "optimize:start-plan", ok, "optimize: the plan for the start mode is only used if enabled_modes.contains(mode)", site=M.fmt_span(t["span"])))
-        elif val[0] == "var" and val[1] == "plan":
+            okf = all(len(x[2]) >= 1 and x[2][0][0] in ("arg", "var") and x[2][0][1] == "mode" for x in fm)
+            obs.append(Ob(r, "optimize:for_mode", okf, "optimize: the start plan is GenericPlan::for_mode(mode, ..)"))
+        elif srcs and len(drained) == len(srcs):
             obs.append(Ob(r, "optimize:push-stepped:%d" % k, True, "optimize: re-pushes a plan drained from the previous generation", site=M.fmt_span(t["span"]), info=True))
         else:
-            obs.append(Ob(r, "optimize:push-unknown:%d" % k, False, "optimize: pushes a plan of unknown origin: %s" % M.show(val), site=M.fmt_span(t["span"])))
-    # start plan comes from for_mode(mode, ..)
-    sp = [d for d in ob.defs().get(_local_by_name(ob, "start_plan"), []) if d[2] == "call"]
-    ok = len(sp) == 1 and T.canon(sp[0][3].get("resolved") or sp[0][3].get("callee")).endswith("GenericPlan::for_mode") \
-        and ob.expr_of_operand(sp[0][3]["args"][0])[1] == "mode"
-    obs.append(Ob(r, "optimize:for_mode", ok, "optimize: start_plan = GenericPlan::for_mode(mode, ..)"))
+            obs.append(Ob(r, "optimize:push-unknown:%d" % k, False, "optimize: pushes a plan of unknown origin: %s" % [M.show(x, 80) for x in srcs], site=M.fmt_span(t["span"])))
+    if not any(o.key == "optimize:for_mode" or o.key.endswith(":optimize:for_mode") for o in obs):
+        obs.append(Ob(r, "optimize:for_mode", False, "optimize: no push of a GenericPlan::for_mode(mode, ..) start plan found"))
     # every add_switches call passes the caller's enabled_modes
     calls = ob.calls(lambda c, _t: T.canon(c).endswith("GenericPlan::add_switches"))
     for j, (b, t) in enumerate(calls):
@@ -239,8 +243,15 @@ def fld_enc(ctx):
             obs.append(Ob(r, "new_mode:%s:none" % last, True, "%s clears new_mode" % last, site=site))
         elif last == "maybe_switch_mode" and val[0] == "adt" and val[2] == "Some":
             inner = val[3][0]
-            ok = inner[0] == "call" and T.canon(inner[1]).endswith("EncodationType::latch_from_ascii") and \
-                any(isinstance(x, tuple) and x[0] == "var" and x[1] == "new_mode" for x in M.walk(inner))
+            # latch_from_ascii(x) where x is the very value this function stores into self.encodation
+            ok = inner[0] == "call" and T.canon(inner[1]).endswith("EncodationType::latch_from_ascii") and len(inner[2]) == 1
+            if ok:
+                arg = inner[2][0]
+                while arg[0] in ("ref", "deref"):
+                    arg = arg[1]
+                mode_stores = [w for w in field_writers(f, GDE, "encodation") if w[1] == fn and w[0] == "assign"]
+                a_or = body.origins(arg)
+                ok = len(mode_stores) == 1 and bool(a_or) and a_or == body.origins(mode_stores[0][6])
             obs.append(Ob(r, "new_mode:maybe_switch_mode", ok, "the pending latch is latch_from_ascii() of the mode just switched to", site=site, detail=M.show(val)))
         else:
             obs.append(Ob(r, "new_mode:%s:other" % last, False, "unexpected writer of new_mode in %s: %s" % (fnc, M.show(val)), site=site))
